@@ -15,8 +15,10 @@ MANIFEST = dict(
          "recomputation from the packaged transactions, supply = sum of equities, and that no forbidden transaction was packaged.",
     note="One divisible, replenishable token asset (category 1) created and issued (100 to a1, 100 to a2) in stable setup blocks; scenario blocks "
          "are not stabilised, so equity received inside the scenario cannot be re-sent (the processor demands the holder's asset id in the stable "
-         "state). Categories 2 / 3 and indivisible assets are not covered. Known defect carried as deviation Dev_NegativeAssetTransfer "
-         "(proposed fix: reject amount.Sign() < 0 in EVM.TransferAssetTx).",
+         "state). Categories 2 / 3 and indivisible assets are not covered. Known defect carried as deviations Dev_NegativeAssetTransfer "
+         "(accepted negative amount), Dev_NegativeAssetTransferSplitsMinerValidator (a discarded one makes the miner seal a block the validator "
+         "refuses) and, before /repo 8a7f309, Dev_NegativeAssetTransferPanics / Dev_AssetToFailingContractPanics (node panic); proposed fix: reject "
+         "amount.Sign() < 0 first in EVM.TransferAssetTx.",
     technique="TLA+ model checking (Ledger.tla over LedgerOps.tla) + replay of the TLC state graph and simulated behaviours on real nodes "
               "(adapter ledger) + TLC trace validation (TraceLedger.tla, Check = C12)")
 
